@@ -1842,8 +1842,8 @@ pub fn registry() -> Vec<Profile> {
             run: run_c13,
             required: &["multi_defect[2]", "multi_defect[3]", "precedence_twin_compared", "error_taxonomy_checked", "rule_reported[r01-path]", "rule_reported[r04-query]", "rule_reported[r05-both-carriers]", "rule_reported[r05-no-carrier]", "rule_reported[r06a-algorithm]", "rule_reported[r06b-key-value]", "rule_reported[r06d-missing]", "rule_reported[r07a-algorithm]", "rule_reported[r07d-missing]", "rule_reported[r08-requirement]", "rule_reported[r09-date-format]", "rule_reported[r10-expired]", "rule_reported[r11-not-yet-valid]", "rule_reported[r12-arity]", "rule_reported[r13-scope]", "rule_reported[r14-provider]", "rule_reported[r15-signature]"],
             rule: "fault combinations: one signed request receives 1-4 defects ('atoms') from different rules and seams — network (bad path/query escape, carrier missing/both, algorithm, key=value, missing parameters, requirement injection/under-signing, date text), clock (expired / not yet valid), scope (arity, region, service, terminator, date), provider (every error kind, unknown key) and signature — on either carrier. Precedence is judged by *twins*: the same request with only the earliest-ranked defect must be reported exactly like the request with the later-ranked defects added (kind, status, message class); the reference model only certifies which defect is earliest and that the defects do not interact. Every error observed is checked against the documented kind → code/status table. Non-trivial when at least one defect applied; distinct by (defect set, reported class).",
-            quick_runs: 100000,
-            thorough_runs: 1200000,
+            quick_runs: 50000,
+            thorough_runs: 600000,
             real: REAL_COMMON,
             stubs: STUBS_COMMON,
             assumptions: ASSUME_COMMON,
